@@ -406,8 +406,9 @@ func (db *ContractDB) LoadContractFile(file, pkgPath string) {
 				cl := &Clause{Kind: "at_store", Props: props, Text: text, Expr: e, Arg: strings.TrimSpace(r[:k]), Line: loc}
 				cl.Ord = len(cur.ClausesOf("at_store")) + 1
 				cur.Clauses = append(cur.Clauses, cl)
-			case "at_call":
-				// at_call <pattern> requires <expr>
+			case "at_call", "conc_at_call":
+				// at_call <pattern> requires <expr>; conc_at_call: the same, decided in the concurrent pass
+				// (lock layer) - for facts that must hold at the call whatever other goroutines do
 				k := strings.Index(r, " requires ")
 				if k < 0 {
 					errf("at_call needs 'requires'")
@@ -434,8 +435,8 @@ func (db *ContractDB) LoadContractFile(file, pkgPath string) {
 					siteLoop = -1
 					pat = strings.TrimSpace(strings.TrimSuffix(pat, " outside loops"))
 				}
-				cl := &Clause{Kind: "at_call", Props: props, Text: text, Expr: e, Arg: pat, Loop: siteLoop, Line: loc}
-				cl.Ord = len(cur.ClausesOf("at_call")) + 1
+				cl := &Clause{Kind: kw, Props: props, Text: text, Expr: e, Arg: pat, Loop: siteLoop, Line: loc}
+				cl.Ord = len(cur.ClausesOf(kw)) + 1
 				cur.Clauses = append(cur.Clauses, cl)
 			case "only_calls":
 				// only_calls <receiver-expr> : M1 M2 M3   (effect role: only these methods may be invoked on the receiver)
